@@ -241,6 +241,14 @@ func c06RunEntry(in c06EntryIn, timeout time.Duration) []string {
 		}
 		return []string{outcome, "unusable:" + firstLine(stdout.String())}
 	}
+	if outcome == "ok" {
+		// Every cell panics, so a normal return is anomalous. One cause: the panic escaped on a goroutine
+		// started by the entry point, whose deferred close(done) lets the caller go on for a moment while
+		// the process is already dying. Give that death the time to happen inside this cell, so that it
+		// is observed here (no real-time bound is relied on when the process survives: the cell is then
+		// reported with the outcome "ok").
+		time.Sleep(3 * time.Second)
+	}
 	usable := guarded(func() error {
 		v, err := i.Eval("1+1")
 		if err != nil {
